@@ -716,6 +716,40 @@ func (c *Ctx) reachesCloseOf(seeds []ssa.Value, f *ssa.Function, depth int, seen
 	if found {
 		return true
 	}
+	// kept in a struct field and closed by whoever holds the struct: a Close on a load of the
+	// same field anywhere in the package
+	fields := map[*types.Var]bool{}
+	for _, g := range withClosures(f) {
+		eachInstr(g, func(in ssa.Instruction) {
+			if st, ok := in.(*ssa.Store); ok && d[st.Val] {
+				if fa, ok := st.Addr.(*ssa.FieldAddr); ok {
+					if fv := fieldVarOf(fa); fv != nil {
+						fields[fv] = true
+					}
+				}
+			}
+		})
+	}
+	if len(fields) > 0 {
+		for _, g := range c.RepoFns {
+			if g.Pkg != f.Pkg || c.isTestFile(g.Pos()) {
+				continue
+			}
+			eachCall(g, func(call ssa.CallInstruction) {
+				if methodName(call) != "Close" || recvOf(call) == nil {
+					return
+				}
+				if u, ok := recvOf(call).(*ssa.UnOp); ok && u.Op == token.MUL {
+					if fa, ok := u.X.(*ssa.FieldAddr); ok && fields[fieldVarOf(fa)] {
+						found = true
+					}
+				}
+			})
+		}
+		if found {
+			return true
+		}
+	}
 	for _, n := range nexts {
 		key := n.fn
 		if seen[key] && depth > 0 {
